@@ -212,3 +212,7 @@ def run(ctx):
     from .sizes import SizeEval as _SE
     purity.grows_shared(ctx, "C12.7", CELL, "the number of vertices of the ring", within=set(_SE.VISITED))
     purity.keeps_arguments(ctx, "C12.8", CELL, "a later call with the same options object sees what this call wrote into it, not the caller's choice")
+    # C12.9: the defaults are the same on every call -- cell_to_boundary reads no slot of a module-level options / defaults object
+    # that an earlier call has overwritten with a value derived from that call's arguments (the C17.1 stale-slot finding,
+    # restricted to cell_to_boundary itself)
+    purity.no_stale_defaults(ctx, "C12.9", CELL, "what 'auto' / an absent option means")
